@@ -139,4 +139,13 @@ theorem cache_write_atomic (s : Fs.St) (chunks : List Bytes) (k : Nat) :
   · intro hk; exact Fs.execs_target s _ (Fs.take_no_rename chunks 0o600 k hk)
   · intro hk; rw [List.take_of_length_le hk, Fs.atomicWrite_result]
 
+/-- T1: the file cache is one call each way - `atomicfile.WriteFile` with owner-only permissions
+(the write traced call by call in the `fs` family, modelled by `Fs.atomicWrite`) and
+`os.ReadFile` - with nothing of its own in between (no temporary file of its own naming, no
+in-place write). -/
+theorem fact_file_cache_is_atomicfile :
+    Facts.fileCacheWriteBody = ["return atomicfile.WriteFile(string(f), data, 0600)"] ∧
+    Facts.fileCacheReadBody = ["return os.ReadFile(string(f))"] := by
+  decide
+
 end Setec.C13
